@@ -26,7 +26,7 @@ def blank_comments(src):
         out.append(c); i += 1
     return ''.join(out)
 
-TOK = re.compile(r'\s*(?:(0x[0-9a-fA-F_]+(?:[iu](?:8|16|32|64))?|0b[01_]+(?:[iu](?:8|16|32|64))?|0o[0-7_]+(?:[iu](?:8|16|32|64))?|\d[\d_]*\.\d[\d_]*(?:f32|f64)?|\d[\d_]*(?:f32|f64|[iu](?:8|16|32|64))?)|([A-Za-z_][A-Za-z_0-9]*)|(::|<<|>>|<=|>=|==|!=|=>|\|\||&&|\.\.=|\.\.|[-+*/<>(){}.,;=!^&|:]))')
+TOK = re.compile(r'\s*(?:(0x[0-9a-fA-F_]+(?:[iu](?:8|16|32|64))?|0b[01_]+(?:[iu](?:8|16|32|64))?|0o[0-7_]+(?:[iu](?:8|16|32|64))?|\d[\d_]*\.\d[\d_]*(?:f32|f64)?|\d[\d_]*(?:f32|f64|[iu](?:8|16|32|64))?)|([A-Za-z_][A-Za-z_0-9]*)|(::|<<|>>|<=|>=|==|!=|=>|\|\||&&|\+=|-=|\*=|/=|%=|\.\.=|\.\.|[-+*/%<>(){}\[\].,;=!^&|:]))')
 
 class TranslationError(Exception):
     pass
